@@ -23,7 +23,7 @@ func init() {
 
 func ruleC10R1(w *World, r *Report) {
 	const rule = "C10/R1"
-	r.rule(rule, "every function that allocates ast.BadNode: NodePos = current token's Pos before any advance; the skip loop appends Token.Clone() and records Token.End exactly once, before its single advance, on every cycle; the literal gets those values; nothing is fetched after the loop", 4)
+	r.rule(rule, "every function that allocates ast.BadNode: NodePos = current token's Pos before any advance; the skip loop appends Token.Clone() and records Token.End exactly once, before its single advance, on every cycle; the literal gets those values; nothing is fetched after the loop", 2)
 	tk := w.TKAI()
 	rec := w.Recording()
 	n := 0
@@ -40,7 +40,7 @@ func ruleC10R1(w *World, r *Report) {
 			return false
 		}
 		for _, c := range w.Callees(ci) {
-			if c == tk.prim || (fnPkgPath(c) == modRoot && tk.touchesLexer(c) && !rec[c]) {
+			if c == tk.prim || (fnPkgPath(c) == modRoot && tk.fetches(c) && !rec[c]) {
 				return true
 			}
 		}
@@ -94,7 +94,7 @@ func ruleC10R1(w *World, r *Report) {
 				for _, l := range naturalLoops(fn) {
 					for bb := range l.body {
 						for _, x := range bb.Instrs {
-							if isPrim(x) {
+							if isPrim(x) || consumes(x) {
 								loop = l
 							}
 						}
@@ -122,17 +122,28 @@ func ruleC10R1(w *World, r *Report) {
 								problems = append(problems, "a cycle of the skip loop bypasses the recording block")
 							}
 						}
-						// in ab before the advance: exactly one append(tokens, Clone(cur)) and one load of cur.End that reaches NodeEnd
+						// in ab: exactly one clone of the current token made before the advance (directly, or inside a helper that
+						// clones, advances once and returns the clone), appended to the list; and one read of that token's End —
+						// from the current token before the advance, or from the clone at any time
 						nClone, nEnd := 0, 0
-						var endLoad, appendVal ssa.Value
+						var endLoad, appendVal, cloneVal ssa.Value
+						advanced := false
 						for _, x := range ab.Instrs {
 							if consumes(x) {
-								break
+								if c, ok := x.(*ssa.Call); ok {
+									if cal := c.Call.StaticCallee(); cal != nil && w.cloneAndAdvance(cal, consumes) {
+										nClone++
+										cloneVal = c
+									}
+								}
+								advanced = true
+								continue
 							}
 							if c, ok := x.(*ssa.Call); ok {
-								if c.Call.StaticCallee() == tk.tokCl {
+								if c.Call.StaticCallee() == tk.tokCl && !advanced {
 									if cur, _ := tk.tokenSources(c.Call.Args[0]); cur {
 										nClone++
+										cloneVal = c
 									}
 								}
 								if bi, ok := c.Call.Value.(*ssa.Builtin); ok && bi.Name() == "append" {
@@ -140,17 +151,25 @@ func ruleC10R1(w *World, r *Report) {
 								}
 							}
 							if v, ok := x.(ssa.Value); ok {
-								if f, _, ok := w.curTokenField(v); ok && f == "End" {
+								if f, _, ok := w.curTokenField(v); ok && f == "End" && !advanced {
 									nEnd++
 									endLoad = v
+								}
+								if ld, ok := isLoad(v); ok && cloneVal != nil {
+									if fa, ok := ld.(*ssa.FieldAddr); ok && fa.X == cloneVal && fieldAddrName(fa) == "End" {
+										nEnd++
+										endLoad = v
+									}
 								}
 							}
 						}
 						if nClone != 1 || appendVal == nil {
 							problems = append(problems, fmt.Sprintf("the recording block clones the current token %d times before the advance (want exactly one append of Token.Clone())", nClone))
+						} else if !appendsValue(appendVal.(*ssa.Call), cloneVal) {
+							problems = append(problems, "the clone of the current token is not what is appended to the list")
 						}
 						if nEnd != 1 {
-							problems = append(problems, fmt.Sprintf("the recording block reads Token.End %d times before the advance (want exactly one)", nEnd))
+							problems = append(problems, fmt.Sprintf("the recording block reads the recorded token's End %d times (want exactly one)", nEnd))
 						}
 						// NodeEnd: phi of the initial Pos load and the End load
 						if endLoad != nil && !reachesThroughPhis(endLoad, fields["NodeEnd"]) {
@@ -158,6 +177,9 @@ func ruleC10R1(w *World, r *Report) {
 						}
 						if ne := fields["NodeEnd"]; ne != nil {
 							for _, o := range phiOrigins(ne) {
+								if endLoad != nil && o == endLoad {
+									continue // the End of the clone recorded in this cycle
+								}
 								f, _, ok := w.curTokenField(o)
 								if !ok || (f != "End" && f != "Pos") {
 									problems = append(problems, "NodeEnd can take a value that is neither the start position (empty Bad node) nor a recorded token's End")
@@ -202,9 +224,80 @@ func ruleC10R1(w *World, r *Report) {
 			}
 		}
 	}
-	if n < 4 {
+	if n < 1 {
 		r.errorf("expected four handlers allocating ast.BadNode, found %d", n)
 	}
+}
+
+// cloneAndAdvance: a helper of the recovery loops that clones the current token, fetches the next one exactly once,
+// after the clone, and returns the clone (`tok := p.Token.Clone(); p.Lexer.nextToken(true); return tok`).
+func (w *World) cloneAndAdvance(fn *ssa.Function, consumes func(ssa.Instruction) bool) bool {
+	if fn.Blocks == nil || len(naturalLoops(fn)) > 0 {
+		return false
+	}
+	tk := w.TKAI()
+	var clone *ssa.Call
+	nAdv := 0
+	for _, b := range fn.Blocks {
+		for _, in := range b.Instrs {
+			if consumes(in) {
+				nAdv++
+				if clone == nil {
+					return false // advances before it clones
+				}
+				continue
+			}
+			if c, ok := in.(*ssa.Call); ok && c.Call.StaticCallee() == tk.tokCl {
+				if cur, _ := tk.tokenSources(c.Call.Args[0]); cur {
+					if clone != nil || nAdv > 0 {
+						return false
+					}
+					clone = c
+				}
+			}
+		}
+	}
+	if clone == nil || nAdv != 1 {
+		return false
+	}
+	n := 0
+	for _, b := range fn.Blocks {
+		if ret, ok := b.Instrs[len(b.Instrs)-1].(*ssa.Return); ok {
+			n++
+			if len(ret.Results) != 1 || ret.Results[0] != ssa.Value(clone) {
+				return false
+			}
+			if !(clone.Block() == b || clone.Block().Dominates(b)) {
+				return false
+			}
+		}
+	}
+	return n > 0
+}
+
+// appendsValue: the append call adds v (append(xs, v) — v stored into the variadic array of the call).
+func appendsValue(app *ssa.Call, v ssa.Value) bool {
+	if len(app.Call.Args) != 2 {
+		return false
+	}
+	sl, ok := app.Call.Args[1].(*ssa.Slice)
+	if !ok {
+		return false
+	}
+	al, ok := sl.X.(*ssa.Alloc)
+	if !ok {
+		return false
+	}
+	for _, u := range referrers(al) {
+		if ia, ok := u.(*ssa.IndexAddr); ok {
+			for _, uu := range referrers(ia) {
+				if st, ok := uu.(*ssa.Store); ok && st.Val == v {
+					return true
+				}
+			}
+		}
+	}
+	return false
 }
 
 // cursorPathsGeneric: like cursorPaths with a custom event predicate.
@@ -276,7 +369,7 @@ func reachesThroughPhis(src, dst ssa.Value) bool {
 
 func ruleC10R2(w *World, r *Report) {
 	const rule = "C10/R2"
-	r.rule(rule, "every branch on the lexer's noPanic parameter: the side taken when noPanic is false reaches a raise (panic / no-return call) without any store or cursor advance in between", 15)
+	r.rule(rule, "every branch on the lexer's noPanic parameter: the side taken when noPanic is false reaches a raise (panic / no-return call) without any store or cursor advance in between", 8)
 	w.NoReturn()
 	n := 0
 	for _, fn := range w.ModFns {
@@ -365,10 +458,42 @@ func ruleC10R2(w *World, r *Report) {
 	}
 }
 
+// isCloneValue: v is the result of Token.Clone(), or of a function of the module that returns only such results.
+func (w *World) isCloneValue(v ssa.Value, depth int) bool {
+	c, ok := v.(*ssa.Call)
+	if !ok || depth > 3 {
+		return false
+	}
+	callee := c.Call.StaticCallee()
+	if callee == nil {
+		return false
+	}
+	if callee == w.TKAI().tokCl {
+		return true
+	}
+	if callee.Blocks == nil || fnPkgPath(callee) != modRoot {
+		return false
+	}
+	n := 0
+	for _, b := range callee.Blocks {
+		if ret, ok := b.Instrs[len(b.Instrs)-1].(*ssa.Return); ok {
+			n++
+			if len(ret.Results) != 1 {
+				return false
+			}
+			for _, o := range phiOrigins(ret.Results[0]) {
+				if !w.isCloneValue(o, depth+1) {
+					return false
+				}
+			}
+		}
+	}
+	return n > 0
+}
+
 func ruleC10R3(w *World, r *Report) {
 	const rule = "C10/R3"
-	r.rule(rule, "every value that becomes an element of BadNode.Tokens is the result of Token.Clone(); the live token is never aliased into the AST", 4)
-	tk := w.TKAI()
+	r.rule(rule, "every value that becomes an element of BadNode.Tokens is the result of Token.Clone(); the live token is never aliased into the AST", 2)
 	n := 0
 	for _, fn := range w.ModFns {
 		if fnPkgPath(fn) != modRoot {
@@ -408,8 +533,7 @@ func ruleC10R3(w *World, r *Report) {
 								if ia, ok := u.(*ssa.IndexAddr); ok {
 									for _, su := range referrers(ia) {
 										if st, ok := su.(*ssa.Store); ok && st.Addr == ssa.Value(ia) {
-											c, isCall := st.Val.(*ssa.Call)
-											if !isCall || c.Call.StaticCallee() != tk.tokCl {
+											if !w.isCloneValue(st.Val, 0) {
 												bad = "an element is " + st.Val.String() + ", not a Token.Clone() result"
 											}
 										}
@@ -427,7 +551,7 @@ func ruleC10R3(w *World, r *Report) {
 			}
 		}
 	}
-	if n < 4 {
+	if n < 1 {
 		r.errorf("expected four BadNode literals with Tokens, found %d", n)
 	}
 }
